@@ -65,6 +65,49 @@ pub enum FromClientMessage {
     FlushJournal,
 }
 
+impl FromClientMessage {
+    /// Checks the id selectors of a request. They are only deserialized, so the server cannot
+    /// rely on what the command line parser guarantees; it would panic when it iterates
+    /// a malformed array. (The task ids of `Submit` also have to be unique, `handle_submit`
+    /// checks them.)
+    pub fn validate(&self) -> Result<(), String> {
+        let (selector, task_selector) = match self {
+            FromClientMessage::Cancel(msg) => (&msg.selector, None),
+            FromClientMessage::ForgetJob(msg) => (&msg.selector, None),
+            FromClientMessage::JobDetail(msg) => (&msg.job_id_selector, msg.task_selector.as_ref()),
+            FromClientMessage::JobInfo(msg, _) => (&msg.selector, None),
+            FromClientMessage::WorkerInfo(msg) => (&msg.selector, None),
+            FromClientMessage::StopWorker(msg) => (&msg.selector, None),
+            FromClientMessage::CloseJob(msg) => (&msg.selector, None),
+            // No wildcard: a new request has to be considered here
+            FromClientMessage::Submit(..)
+            | FromClientMessage::GetList { .. }
+            | FromClientMessage::Stop
+            | FromClientMessage::AutoAlloc(_)
+            | FromClientMessage::ServerInfo
+            | FromClientMessage::OpenJob(_)
+            | FromClientMessage::TaskExplain(_)
+            | FromClientMessage::ServerDebugDump(_)
+            | FromClientMessage::StreamEvents(_)
+            | FromClientMessage::PruneJournal
+            | FromClientMessage::FlushJournal => return Ok(()),
+        };
+        if let IdSelector::Specific(ids) = selector {
+            ids.validate_ranges()
+                .map_err(|e| format!("id selector: {e}"))?;
+        }
+        if let Some(TaskSelector {
+            id_selector: TaskIdSelector::Specific(ids),
+            ..
+        }) = task_selector
+        {
+            ids.validate_ranges()
+                .map_err(|e| format!("task id selector: {e}"))?;
+        }
+        Ok(())
+    }
+}
+
 #[derive(Serialize, Deserialize, Debug, Clone, Hash, PartialEq, Eq)]
 pub enum PinMode {
     #[serde(rename = "none")]
